@@ -31,7 +31,7 @@ static sample eval(colvarproxy_stub *proxy, double x, long step) {
 // +-180 seam; the variable stays at 175.  The accumulated work written to the trajectory must equal sum_t F(t) * dc with dc the 2-degree increment.
 class run_proxy_r : public colvarproxy_stub { public: run_proxy_r() : colvarproxy_stub() { b_simulation_running = true; } };
 static int moving_periodic_centre() {
-  char dir[] = "/var/tmp/cvmcXXXXXX"; if (!mkdtemp(dir)) return 2; if (chdir(dir)) return 2;
+  char dir[] = "./cvmcXXXXXX"; if (!mkdtemp(dir)) return 2; if (chdir(dir)) return 2;
   run_proxy_r *p = new run_proxy_r(); p->set_unit_system("real", false); p->set_output_prefix("mc"); p->colvars->setup_input(); p->colvars->setup_output(); for (int a = 0; a < 4; a++) p->init_atom(a + 1);
   double const k = 0.01;
   if (p->colvars->read_config_string("colvarsTrajFrequency 1\ncolvarsRestartFrequency 0\ncolvar {\n  name phi\n  dihedral {\n    group1 { atomNumbers 1 }\n    group2 { atomNumbers 2 }\n    group3 { atomNumbers 3 }\n    group4 { atomNumbers 4 }\n  }\n}\n"
